@@ -180,6 +180,9 @@ func c08Exec(r *vf.Run, k c08Case) []finding {
 			continue
 		}
 		for _, p := range e.Problems {
+			if k.Mod == "preformatted-lf" && strings.Contains(p, "bare LF") {
+				continue // the caller's own preformatted value
+			}
 			add(fmt.Sprintf("malformed-top-level/%s/%s", rn, cls), "%s: %s", rn, p)
 		}
 		if p := e.Params["protocol"]; p != "application/pkcs7-signature" {
@@ -340,9 +343,9 @@ func c08Specs(thorough bool) []c08Case {
 						}
 						mods := []string{"none"}
 						if thorough || n%2 == 0 {
-							mods = append(mods, "descriptions", "no-from", "empty-to", "empty-gen-header", "preformatted", "long-subject")
+							mods = append(mods, "descriptions", "no-from", "empty-to", "empty-gen-header", "preformatted", "long-subject", "preformatted-lf")
 						} else {
-							mods = append(mods, []string{"descriptions", "no-from", "empty-to", "empty-gen-header", "preformatted", "long-subject"}[n%6])
+							mods = append(mods, []string{"descriptions", "no-from", "empty-to", "empty-gen-header", "preformatted", "long-subject", "preformatted-lf"}[n%7])
 						}
 						for _, mod := range mods {
 							s := base
@@ -368,6 +371,9 @@ func c08Specs(thorough bool) []c08Case {
 								s.GenEmpty = []string{"X-Empty"}
 							case "preformatted":
 								s.Preform = [][2]string{{"X-Pre-One", "value one"}, {"X-Pre-Two", "line one\r\n line two"}}
+							case "preformatted-lf":
+								// written verbatim by contract: the caller folded with a bare LF (and put a bare LF at the end of a line)
+								s.Preform = [][2]string{{"X-Pre-LF", "line one\n line two"}, {"X-Pre-Mixed", "first\r\n second\n third"}}
 							case "long-subject":
 								sub := repeatTo("a fairly long subject that will be folded ", 160)
 								s.Subject = &sub
@@ -470,7 +476,7 @@ func init() {
 	vf.Register(&vf.Check{
 		ID: "C08", Title: "S/MIME signatures verify for every message shape",
 		Run: func(r *vf.Run) {
-			r.SetRule("all 36 part/embed/attachment count combinations (0..3 × 0..2 × 0..2) × message encoding {QP, base64, 8bit} × file encoding {base64, 8bit, QP} with per-part encodings × modifier {none, part/file descriptions, no From, empty To list via ToIgnoreInvalid, generic header without values, two preformatted headers (one multi-line), long folded subject} × key {ECDSA P-256, RSA-2048, P-384, P-521, a P-256 signer whose serial number equals the intermediate's} × {with, without intermediate certificate} × three consecutive renders × histories {signed from the start; 1–2 unsigned renders, then SignWithKeypair, then render; subject changed between signed renders; a WriteTo into a sink failing after 1/200/600/1500 bytes before each judged render} × middleware {none; one that sets a header / appends a footer to the first body part / adds an attachment on every rendering} × map-iteration start 0..7 on the renders where map order matters, incl. a different order for the signed pre-rendering and the emission inside one WriteTo (switch after n = 1..14 iterations); every output is split by the harness' MIME reader and the PKCS#7 structure is verified by the harness' own CMS verifier (digest of the first part as emitted, signature over the DER SET of signed attributes, embedded certificates, protocol/micalg); distinct by (program, map starts)")
+			r.SetRule("all 36 part/embed/attachment count combinations (0..3 × 0..2 × 0..2) × message encoding {QP, base64, 8bit} × file encoding {base64, 8bit, QP} with per-part encodings × modifier {none, part/file descriptions, no From, empty To list via ToIgnoreInvalid, generic header without values, two preformatted headers (one multi-line), preformatted headers folded with a bare LF, long folded subject} × key {ECDSA P-256, RSA-2048, P-384, P-521, a P-256 signer whose serial number equals the intermediate's} × {with, without intermediate certificate} × three consecutive renders × histories {signed from the start; 1–2 unsigned renders, then SignWithKeypair, then render; subject changed between signed renders; a WriteTo into a sink failing after 1/200/600/1500 bytes before each judged render} × middleware {none; one that sets a header / appends a footer to the first body part / adds an attachment on every rendering} × map-iteration start 0..7 on the renders where map order matters, incl. a different order for the signed pre-rendering and the emission inside one WriteTo (switch after n = 1..14 iterations); every output is split by the harness' MIME reader and the PKCS#7 structure is verified by the harness' own CMS verifier (digest of the first part as emitted, signature over the DER SET of signed attributes, embedded certificates, protocol/micalg); distinct by (program, map starts)")
 			r.Assume("content is in canonical CRLF form", "cmsverify is validated at start-up against OpenSSL-produced CMS signatures (RSA and ECDSA)")
 			if !mapseam.Enabled {
 				r.Incomplete("runtime map-iteration seam not available: map order is sampled")
